@@ -140,7 +140,7 @@ func (g *Gen) paramOp(st *State) Ev {
 	if g.chance(0.15) { // a proposal the module's validators have to refuse
 		switch g.R.Intn(5) {
 		case 0:
-			p.Slash = g.in(-1, 1001, 1500)
+			p.Slash = g.in(-1, -500, 1001, 1500)
 		case 1:
 			p.Tax = g.in(-1, 1000, 1200)
 		case 2:
